@@ -171,6 +171,46 @@ def stalled_listener_scenario(bins, idx, rng, mib=12):
         fx.cleanup()
 
 
+def behind_compressor_scenario(bins, idx, rng, mib=64):
+    """One member of a group hands the compressor tens of megabytes at the very end; its siblings write their last bytes
+    right after that and exit.  When the group is joined the compressor is still well behind: whatever it has queued is
+    still part of the logs."""
+    targets = [{"path": "big"}] + [{"path": "s%d" % i} for i in range(1, 4)]
+    fx = fixture.Fixture(bins, targets)
+    try:
+        line = "bulk %s\n" % ("q" * 20)
+        times = mib * 1024 * 1024 // (len(line) + 42)
+        fx.add_cmd("big", "build", [{"op": "out", "text": "big starts\n"}, {"op": "sleep", "ms": 560},
+                                    {"op": "out_repeat", "text": line, "times": times, "unique": True}, {"op": "touch", "path": "big-wrote"},
+                                    {"op": "exit", "code": 0}], ext=".sh")
+        written = {("big", "stdout"): b"big starts\n" + repeat_unique(line, times), ("big", "stderr"): b""}
+        for t in targets[1:]:
+            tp = t["path"]
+            fx.add_cmd(tp, "build", [{"op": "out", "text": "%s head\n" % tp}, {"op": "wait", "paths": ["big-wrote"], "timeout_ms": 120000},
+                                     {"op": "out", "text": "%s tail after the big one\n" % tp}, {"op": "out", "stream": "stderr", "text": "%s err tail\n" % tp},
+                                     {"op": "exit", "code": 0}], ext=".sh")
+            written[(tp, "stdout")] = ("%s head\n%s tail after the big one\n" % (tp, tp)).encode()
+            written[(tp, "stderr")] = ("%s err tail\n" % tp).encode()
+        fx.git_init()
+        res = fx.monorail(["run", "-c", "build"], timeout=240)
+        run_dir = res["out"]["out"]["run"]["path"] if isinstance(res["out"], dict) and "out" in res["out"] else None
+        tasks = []
+        for (tp, stream), data in sorted(written.items()):
+            h = hashlib.sha256(tp.encode()).hexdigest()
+            stored = unzst(bins, os.path.join(run_dir, "build", h, stream + ".zst")) if run_dir else None
+            eq = stored is not None and stored == data
+            first_diff = -1
+            if stored is not None and not eq:
+                first_diff = next((i for i in range(min(len(stored), len(data))) if stored[i] != data[i]), min(len(stored), len(data)))
+            tasks.append({"target": runlib.P(tp), "stream": stream, "kind": "behind_compressor", "ran": True, "written_len": len(data), "filters_ok": True,
+                          "stored_len": len(stored) if stored is not None else -1, "stored_equal": eq, "first_diff": first_diff,
+                          "foreign": False, "shown": False, "show_equal": True})
+        return {"ev": "e2e", "scenario": idx, "rc": res["rc"] if res["rc"] is not None else -9, "want_rc": 0, "tasks": tasks,
+                "stderr": res["stderr"].decode("utf-8", "replace")[-300:]}
+    finally:
+        fx.cleanup()
+
+
 def e2e_scenario(bins, idx, ntargets, rng, kinds=None, failing=False, listener=False, repeat=False):
     """listener: a `log tail` listener is attached while the run writes (what is stored must not depend on it).
     repeat: the command is given twice (`-c build build`): the same (command, target) executes twice in one run and writes
@@ -373,6 +413,8 @@ def run(pid, tier):
             return e2e_scenario(bins, i, 6 if i == 3 else 3, rr, kinds=["megabytes_text", "big_incompressible"], failing=True)
         if i == 7:
             return stalled_listener_scenario(bins, i, rr)
+        if i == 8:
+            return behind_compressor_scenario(bins, i, rr)
         if i == 5:
             # a listener is attached while tasks write output that ends in the middle of a line
             return e2e_scenario(bins, 6, 3, rr, kinds=["no_trailing_newline", "no_trailing_newline", "pause_mid_line"], listener=True)
